@@ -62,7 +62,8 @@ def gen_program(rng, conflict=None):
                 if conflict is None and (t not in defined or (th, t, v) in [(c[0], c[1][1], c[1][2]) for c in calls if c[1][0] == "label"]):
                     continue
                 if conflict == "label" and th > 0 and rng.chance(1, 2):
-                    lab = lab + "_other"
+                    # another label for the same value: longer, a proper prefix of the first one, or unrelated
+                    lab = rng.choice([lab + "_other", lab[:-1] or "z", lab[:1] if len(lab) > 1 else "zz", "x" + lab])
                 if conflict == "label_zero" and rng.chance(1, 3):
                     v = rng.choice([0, -2])
                 if conflict == "undefined_label" and rng.chance(1, 3):
@@ -129,6 +130,17 @@ def run(chk):
         k = kinds[i % len(kinds)]
         lines, calls = gen_program(r, k)
         progs.append((k, lines, calls))
+    # fixed conflicts between two threads: the second label longer than, a prefix of, and unrelated to the first
+    for (l1, l2) in (("Red", "Reddish"), ("Reddish", "Red"), ("Reddish", "R"), ("Red", "Blue"), ("a", "")):
+        if not l2:
+            continue
+        fl = ["proc node1 500",
+              "thread 501 0", "type 3 1 %s" % b"colour".hex(), "label 3 7 %s" % l1.encode().hex(), "push 3 7", "pop 3 7", "endthread",
+              "thread 502 1", "type 3 1 %s" % b"colour".hex(), "label 3 7 %s" % l2.encode().hex(), "push 3 7", "pop 3 7", "endthread",
+              "endproc"]
+        fc = [(0, ("type", 3, True, "colour")), (0, ("label", 3, 7, l1)), (0, ("push", 3, 7)), (0, ("pop", 3, 7)),
+              (1, ("type", 3, True, "colour")), (1, ("label", 3, 7, l2)), (1, ("push", 3, 7)), (1, ("pop", 3, 7))]
+        progs.append(("label", fl, fc))
     wd = trace.workdir()
     scs = []
     rt_bad = []
@@ -138,6 +150,11 @@ def run(chk):
             d = os.path.join(wd, "p%d" % ix)
             os.makedirs(d)
             rc, out, err = common.run([drv], input="\n".join(lines) + "\n", env={"OVNI_TRACEDIR": os.path.join(d, "ovni")}, cwd=d, timeout=60)
+            if k is None and ix % 3 == 0:
+                # a second node running the same program with the same TIDs (TIDs are unique per node only): its
+                # marks must show up in its own rows
+                l2 = ["proc node2 600"] + lines[1:]
+                common.run([drv], input="\n".join(l2) + "\n", env={"OVNI_TRACEDIR": os.path.join(d, "ovni"), "MARK_DRV_CLOCK_SHIFT": "5"}, cwd=d, timeout=60)
             return rc, out.split("\n"), err
         res = trace.pmap(run_prog, range(len(progs)))
         # ---- runtime side: die/ok per call and resulting metadata, judged by the documented rules
